@@ -104,13 +104,6 @@ def check_zoom(ctx, interp, rng):
     z2 = interp.zoom_rbs(img, sz, order)
     if ctx.check(z1.shape == z2.shape, "zoom_vs_zoom_rbs:shape", "%s vs %s" % (z1.shape, z2.shape), {"n": n, "target": sz, "order": order}):
         ctx.close("zoom_vs_zoom_rbs", z1, z2, 1e-9 * float(np.abs(img).max()), "zoom_vs_zoom_rbs", {"n": n, "target": sz, "order": order})
-    # unsupported order is rejected by zoom
-    try:
-        interp.zoom(img, sz, 2)
-        ctx.fail("zoom:order_validation", "zoom accepted order=2", None)
-    except ValueError:
-        pass
-    ctx.count("oracle_evals")
 
 
 def check_azimuthal(ctx, psf, rng):
